@@ -149,3 +149,31 @@ S("r2-C17-m3", "map-key-bypasses-registry", "map.go BuildMapCodec uses StringCod
 S("r2-C20-m1", "exclusion-before-existing-tag", "plenctag exclusion check runs before the existing-tag check", "-json on a field that already has a plenc tag and json:\"-\"")
 S("r2-C20-m2", "writes-despite-errors", "plenctag writes output even when rewrite reported errors", "file with an unparsable plenc tag")
 S("r2-C20-m3", "plencvalue-parses-options", "plenctag plencValue parses name+options as the index", "existing tag plenc:\"3,flat\"")
+
+# ---- round 3 ----
+S("r3-C03-m1", "struct-read-rejects-index-0", "struct.go StructCodec.Read treats an unknown field with index 0 as corrupt data", "writer has a plenc:\"0\" field the reader removed")
+S("r3-C03-m2", "map-slot-always-zeroed", "map.go readMapEntry zeroes the value slot right after mapassign and drops the no-value branch", "populated target map with the same key, value struct with a field absent from the data")
+S("r3-C03-m3", "walker-lookup-breaks-at-larger-index", "descriptor.go readAsStruct stops the element search at the first element with a larger index", "Descriptor of a struct that declares a lower index after a higher one")
+S("r3-C06-m1", "direct-iface-one-level", "marshal.go isDirectIface de-recursed: unwraps one struct and one array level only", "by-value Marshal of struct{Leaf struct{P *int}}")
+S("r3-C06-m2", "flush-under-struct-tag-2", "struct.go pending codecs flushed under the struct's own tag (variable rename)", "tagged field type used before its first untagged use")
+S("r3-C06-m3", "marshal-nil-guard", "marshal.go Marshal returns nil, nil when the interface data word is nil", "non-empty buf and a nil map / single-field struct holding nil passed by value")
+S("r3-C07-m1", "storeorswap-load-then-store", "codec.go StoreOrSwap: Load then Store instead of LoadOrStore", "two goroutines building the same type at the same moment")
+S("r3-C07-m2", "lazy-field-table", "struct.go fieldsByIndex built lazily and unsynchronised on first Read", "concurrent first decode through one struct codec")
+S("r3-C07-m3", "append-into-shared-tag", "struct.go StructCodec.Append: append(data, AppendVarUint(tag, size)...) writes the length into the shared tag's spare capacity", "goroutines marshalling the same parent type with nested values of different sizes")
+S("r3-C08-m2", "flush-before-duplicate-check", "struct.go pending codecs flushed before the duplicate-index check", "self-referential struct with a duplicate index, then a request for *node")
+S("r3-C08-m3", "error-message-elem-of-non-elem-kind", "map.go BuildMapCodec error message calls typ.Elem().Elem().Name()", "rejected map value type that is unnamed and has no Elem (interface{}, func, anonymous struct)")
+S("r3-C10-m1", "pointer-read-fresh-value", "wrapper.go PointerWrapper.Read always decodes into a fresh pointee", "target already holds a non-nil pointer whose pointee has fields absent from the data")
+S("r3-C10-m2", "varint-slice-empty-early-return", "wrapper.go WTVarIntSliceWrapper.Read returns early on empty data", "empty slice encoding decoded into a populated []int")
+S("r3-C10-m3", "intern-table-cap", "string.go addString skips the insert when the table has 1024 entries and returns the failed lookup's zero value", "more than 1024 distinct values through one interned field")
+S("r3-C13-m1", "time-microsecond-layout", "output.go JSONOutput.Time uses a microsecond layout", "time whose nanoseconds are not a whole number of microseconds")
+S("r3-C13-m2", "walker-number-reparsed", "descriptor.go json.Number re-emitted through Int64/Float64", "json.Number outside int64 / beyond float64 precision")
+S("r3-C13-m3", "fieldtype-text-marshalers", "descriptor.go FieldType.MarshalText/UnmarshalText over stale stringer tables", "Descriptor with flat int / JSON field types restored through encoding/json")
+S("r3-C16-m1", "walker-number-float64", "descriptor.go json.Number rendered through Float64", "json.Number not representable as float64")
+S("r3-C16-m2", "empty-array-code-only", "json.go empty nested []any written as its type code alone (size, append, reader updated; walker not)", "empty []any nested in a map or array, rendered through the Descriptor")
+S("r3-C16-m3", "json-array-no-clear", "json.go JSONArrayCodec.Read no longer resets re-used elements", "nil element decoded into a re-used array holding a non-nil value")
+S("r3-C18-m1", "sizevarint-from-magnitude", "varints.go SizeVarInt computed from |v| plus one bit", "v = -2^(7k-1)")
+S("r3-C18-m2", "skip-varint-accepts-truncated", "wire.go Skip WTVarInt uses ReadVarUint and checks only n < 0", "truncated varint (all continuation bits)")
+S("r3-C18-m3", "skip-slice-count-precheck", "wire.go Skip WTSlice pre-check count >= remaining", "trailing WTSlice with only empty entries")
+S("r3-C19-m1", "interned-null-loses-omit", "null.go internedNullStringCodec embeds the interning codec and loses the null-aware Omit", "valid empty null.String tagged intern")
+S("r3-C19-m2", "intern-fixed-array-key", "string.go intern table keyed by a zero-padded [32]byte", "values differing only in trailing NUL bytes")
+S("r3-C19-m3", "intern-table-cap-2", "string.go addString table size cap returns the zero string once full", "more than 1024 distinct values, then a new one")
